@@ -9,10 +9,13 @@ package mon
 // in order and the body must arrive unchanged; hop-by-hop headers must not cross.
 
 import (
+	"bufio"
 	"bytes"
 	"crypto/sha256"
 	"encoding/hex"
 	"fmt"
+	"io"
+	"net"
 	"net/http"
 	"os/exec"
 	"reservoir/cache"
@@ -392,6 +395,89 @@ func c08Run(b core.Batch, r *core.Recorder) {
 	c08range416(b, r, mode)
 	c08revalFallback(b, r, mode)
 	c08lateBodyRead(b, r, mode)
+	c08earlyAnswer(b, r, mode)
+}
+
+// c08earlyAnswer: an origin that answers as soon as it has the request head (an upload refused with an error
+// document, say) and then goes on reading the request body, as servers do to keep the connection usable. A client
+// talking to it directly gets the whole response; through the proxy it must, too.
+func c08earlyAnswer(b core.Batch, r *core.Recorder, mode rig.Mode) {
+	ln, err := net.Listen("tcp", "127.0.0.1:0")
+	if err != nil {
+		panic(err)
+	}
+	defer ln.Close()
+	type script struct {
+		status int
+		body   []byte
+	}
+	var mu sync.Mutex
+	scripts := map[string]script{}
+	drained := map[string]int64{}
+	go func() {
+		for {
+			c, err := ln.Accept()
+			if err != nil {
+				return
+			}
+			go func() {
+				defer c.Close()
+				br := bufio.NewReader(c)
+				for {
+					req, err := http.ReadRequest(br)
+					if err != nil {
+						return
+					}
+					id := req.Header.Get("X-Verif-Case")
+					mu.Lock()
+					sc := scripts[id]
+					mu.Unlock()
+					fmt.Fprintf(c, "HTTP/1.1 %d %s\r\nContent-Length: %d\r\nCache-Control: no-store\r\nX-Verif-Early: %s\r\n\r\n", sc.status, http.StatusText(sc.status), len(sc.body), id)
+					c.Write(sc.body)
+					n, _ := io.Copy(io.Discard, req.Body)
+					mu.Lock()
+					drained[id] = n
+					mu.Unlock()
+				}
+			}()
+		}
+	}()
+	p := rig.StartProxy(rig.ProxyOpts{Backend: b.Str("backend", "memory")})
+	defer p.Close()
+	addr := ln.Addr().String()
+	k := 0
+	for rep := 0; rep < b.Int("early_reps", 3); rep++ {
+		for _, rs := range []int{2000, 100000, 1000000} {
+			for _, ps := range []int{100, 5000, 200000} {
+				id := fmt.Sprintf("early-%s-%d", string(mode), k)
+				method := []string{"POST", "PUT"}[k%2]
+				status := []int{403, 413, 200, 301, 307}[(k/3)%5]
+				k++
+				cs := map[string]any{"id": id, "method": method, "req_body_len": rs, "resp_body_len": ps, "status": status, "mode": string(mode)}
+				if !r.Case(id, cs) {
+					continue
+				}
+				body := rig.Body(7000+k, 1, ps)
+				mu.Lock()
+				scripts[id] = script{status, body}
+				mu.Unlock()
+				q := rig.Req{Method: method, Target: "/early/" + id, Body: rig.Body(8000+k, 2, rs), Header: [][2]string{{"X-Verif-Case", id}, {"Content-Type", "application/x-verif-req"}}}
+				resp := rig.Do(p, mode, addr, q)
+				r.Eval(1)
+				r.Count("early_answer_cases", 1)
+				r.Nontrivial("early-answer", string(mode), method, rs, ps, status)
+				mu.Lock()
+				wit := map[string]any{"status": resp.Status, "header": resp.Header, "body_len": len(resp.Body), "err": fmt.Sprint(resp.Err), "origin_read_request_body_bytes": drained[id]}
+				mu.Unlock()
+				switch {
+				case resp.Err != nil:
+					r.Violation("C08", "C08:resp:cut-short:origin-answered-before-reading-the-request-body", fmt.Sprintf("the origin answered %d with %d body bytes before it read the %d-byte request body (which it then drained); the client got %d of them and then %v", status, ps, rs, len(resp.Body), resp.Err), cs, wit)
+				case resp.Status != status || !bytes.Equal(resp.Body, body):
+					r.Violation("C08", "C08:resp:wrong:origin-answered-before-reading-the-request-body", fmt.Sprintf("the origin answered %d with %d body bytes before it read the request body; the client got status %d and %d bytes (equal=%v)", status, ps, resp.Status, len(resp.Body), bytes.Equal(resp.Body, body)), cs, wit)
+				}
+			}
+		}
+	}
 }
 
 // c08lateBodyRead: requests with a body whose origin answers as soon as it has the body and then sends its
@@ -841,7 +927,7 @@ func init() {
 		ID:    "C08",
 		Level: "exploration",
 		Rule: "seeded generation of exchanges: method in {GET,HEAD,POST,PUT,PATCH,DELETE,OPTIONS} x 15 request-target classes (pct-encoded slash/pipe/space, semicolon, empty query, dot-segments, double slash, trailing slash, ...) x request header options (multi-valued, odd casing, Cookie, Authorization, Connection-nominated, Proxy-*, TE, end-to-end names that merely begin like hop-by-hop ones: Proxy-Trace-Id, Upgrade-Insecure-Requests, Connection-Id, ...) x request bodies (none/sized/chunked/70k-1MiB) " +
-			"x origin script: status from 25 codes incl. 3xx with Location, multi-valued Set-Cookie/Link/Vary/Warning, Connection-nominated and hop-by-hop headers, validators, cache directives, bodies (none/sized/chunked/200k); 60% of storable GETs are requested a second time so that the answer from the store is checked too; plain and tunnel transport, both backends; origins behind another intermediary (their Via / Cache-Status / X-Cache values must stay in front of the values this proxy appends); a stale entry whose revalidation is answered 503 / 404 / 200 no-store (any further request of that exchange must be a faithful copy of the unconditional client request, and the client must get the real answer, never a 304); body-carrying requests (POST/PUT/DELETE/PATCH, 1..40000 bytes) to an origin that pauses in the middle of its response body while the hook upstream.body.read holds the upstream client's reads of the request body after the first (the after-the-end read then happens while the response is being relayed), and once more in a child whose write system calls are held 3 ms after completion by strace's delay injector (batches late-*-write-exit-delayed; absent where strace cannot trace). " +
+			"x origin script: status from 25 codes incl. 3xx with Location, multi-valued Set-Cookie/Link/Vary/Warning, Connection-nominated and hop-by-hop headers, validators, cache directives, bodies (none/sized/chunked/200k); 60% of storable GETs are requested a second time so that the answer from the store is checked too; plain and tunnel transport, both backends; origins behind another intermediary (their Via / Cache-Status / X-Cache values must stay in front of the values this proxy appends); a stale entry whose revalidation is answered 503 / 404 / 200 no-store (any further request of that exchange must be a faithful copy of the unconditional client request, and the client must get the real answer, never a 304); body-carrying requests (POST/PUT/DELETE/PATCH, 1..40000 bytes) to an origin that pauses in the middle of its response body while the hook upstream.body.read holds the upstream client's reads of the request body after the first (the after-the-end read then happens while the response is being relayed), and once more in a child whose write system calls are held 3 ms after completion by strace's delay injector (batches late-*-write-exit-delayed; absent where strace cannot trace); uploads of 2 kB..1 MB to an origin that answers 403/413/200/301/307 with 100..200000 bytes as soon as it has the request head and then drains the request body. " +
 			"Every copy of the request the origin logs and the response the client parses are compared field by field. Non-trivial/distinct = distinct (transport, method, target class, status, request/response header-name sets, body shapes, round).",
 		Assumptions: []string{"headers the proxy's HTTP client adds when absent (User-Agent, Accept-Encoding) and framing (Content-Length/Transfer-Encoding) are tolerated on the request side",
 			"Age, Accept-Ranges, Date and framing headers are proxy-owned on the response side; to Via, X-Cache and Cache-Status the proxy may append, the values an upstream intermediary wrote must stay in front", "conditional request headers and Range are not generated here (C06/C07 cover them)"},
